@@ -72,10 +72,12 @@ EXTENDED_COMMUNITY_TARGET_PARTS = 2  # Target extended community has 2 parts (AS
 
 def prefix(tokeniser: 'Tokeniser') -> IPRange:
     ip = tokeniser()
-    try:
-        ip, mask_str = ip.split('/')
+    if '/' in ip:
+        ip, mask_str = ip.split('/', 1)
+        if not (mask_str.isascii() and mask_str.isdigit()):
+            raise ValueError(f"'{mask_str}' is not a valid prefix length")
         mask = int(mask_str)
-    except ValueError:
+    else:
         mask = 32
         if ':' in ip:
             mask = 128
